@@ -153,6 +153,7 @@ func (s *Server) setSettings(settings serverSettings) {
 		})
 		s.docGen.Add(1)
 		s.dropPayeeTemplates()
+		verifhook.Point("config.bumped")
 		if s.workspace != nil {
 			// built anew, never changed in place: requests being answered
 			// meanwhile keep the tree they started with (open documents are
